@@ -205,6 +205,11 @@ def cellVariance {n : Nat} (v : Vector α n) (jitter : α) (i : Nat) : α :=
 def cellScale {n : Nat} (v : Vector α n) (jitter : α) : Vector α n :=
   vecOfFn fun i => 1 / sqrt (cellVariance v jitter i)
 
+/-- `sigma * scale`: the stated noise in whitened units (1 unless `sigmaᵢ²` was raised to the jitter), the factor that is
+    propagated for the uncertainty. -/
+def cellNoise {n : Nat} (v : Vector α n) (jitter : α) : Vector α n :=
+  vecOfFn fun i => v.nth i * (cellScale v jitter).nth i
+
 /-- `A * scale[None, :]` (column `k` — cell `k` — times `scale[k]`). -/
 def scaleCols {m n : Nat} (A : Mat α m n) (s : Vector α n) : Mat α m n :=
   Mat.ofFn fun i k => A.el i k * s.nth k
@@ -240,7 +245,7 @@ def lmWeights {n m c : Nat} (L LB : Mat α m m) (A : Mat α m n) (r : Mat α n c
 /-- `W` of `_LandmarksConditional` (`with_uncertainty`): the input noise acts on the `n`
     observations, so the factor is `_sigma_to_y_cov_factor(noise_sigma, noise_factor, x.shape[0])` built from
     the *original* arguments (the supplied factor, `sigma·I_n`, or `diag(sigma)`; a missing noise
-    specification is the documented `ValueError`) — in the per-cell branch from `(1.0, None)`, the unit factor
+    specification is the documented `ValueError`) — in the per-cell branch from `(sigma * scale, None)`, the stated noise in whitened units
     of the whitened problem, with the whitened `A`; `dot(A, factor)` needs `n` rows. -/
 def lmUnc {n m : Nat} (L LB : Mat α m m) (A : Mat α m n) (sigma : Sigma α n) (ycf : Option (AnyMat α)) :
     Except CondErr (AnyMat α) :=
@@ -279,7 +284,7 @@ def lmCore {n m d c : Nat} (cov : Cov α) (xu : Mat α m d) (mu jitter : α) (L 
 
     * per-cell branch (`lmPerCell`: a sigma vector, no explicit factor, values are not the mean): the
       observations are whitened with `D = diag(max(sigmaᵢ², jitter))` — `A ← A D^-1/2`, `r ← D^-1/2 (y − mu)` —
-      and the unit-noise system `(I + A D⁻¹ Aᵀ) z = A D⁻¹ r` is solved; the uncertainty propagates the unit
+      and the unit-noise system `(I + A D⁻¹ Aᵀ) z = A D⁻¹ r` is solved; the uncertainty propagates the whitened stated noise `sigma * scale` (the unit
       factor of the whitened problem;
     * otherwise `LLB = A Aᵀ + noise` with the noise sized by the landmarks (`lmLLB`). -/
 def lmCondInit {n m d c : Nat} (cov : Cov α) (x : Mat α n d) (xu : Mat α m d) (y : Mat α n c)
@@ -294,7 +299,7 @@ def lmCondInit {n m d c : Nat} (cov : Cov α) (x : Mat α n d) (xu : Mat α m d)
     | some v =>
       let s := cellScale v jitter
       let Aw := scaleCols A s
-      lmCore cov xu mu jitter L Aw (scaleRows r s) (.ok (addEye (matMulT Aw Aw))) (.scalar 1)
+      lmCore cov xu mu jitter L Aw (scaleRows r s) (.ok (addEye (matMulT Aw Aw))) (.vec (cellNoise v jitter))
         Option.none withUnc
     | Option.none =>
       lmCore cov xu mu jitter L A r (lmLLB (matMulT A A) sigma jitter ycf yIsMean) sigma ycf withUnc
